@@ -27,6 +27,7 @@ AP_K2_COPYEDIT = {"k": 2, "maxtok": 2, "maxtok0": 1, "mintok1": 2, "tokmask": 1,
 AP_ESC = {"k": 1, "maxtok": 2, "tokmask": 64, "shapemask": 262144, "nvals": 2, "kmask0": 63}
 # containers under names that need an escaped ANCESTOR token, names spelled plainly (shape 19) or through JSON escapes (shape 20)
 AP_ESCPARENT = {"k": 1, "maxtok": 2, "mintok0": 1, "tokmask": 13, "shapemask": 1572864, "nvals": 2, "kmask0": 63}
+AP_PAD = {"k": 2, "maxtok": 1, "tokmask": 1, "shapemask": 2073, "nvals": 4, "kmask0": 63, "kmask1": 48, "pad": 1}
 AP_K1_T3 = {"k": 1, "maxtok": 3, "tokmask": 15, "shapemask": ALLSHAPES, "nvals": 8, "kmask0": 63}
 AP_K2_DEEP = {"k": 2, "maxtok": 2, "tokmask": 1, "shapemask": 315, "nvals": 2, "kmask0": 63, "kmask1": 63}
 AP_K2_INNER_ALL = {"k": 2, "maxtok": 2, "mintok0": 2, "tokmask": 1, "shapemask": 2328, "nvals": 4, "kmask0": 63, "kmask1": 63}
@@ -35,8 +36,8 @@ AP_BOUND = ("21 document shapes selected by shapemask (<= 7 nodes, depth <= 3, o
             "K operations (kmask selects the kinds per position), pointers of mintok..maxtok tokens; each token 1-3 symbolic bytes "
             "(any printable ASCII except quote, backslash, slash, tilde) or the fixed spellings a~0b / c~1d; 8 value shapes with symbolic leaves; SupportNegativeIndices symbolic")
 def apply_harnesses(extra_quick=(), extra_thorough=()):
-    q = [AP_K1, AP_K2_FLAT, AP_K2_INNER, AP_K2_COPYEDIT, AP_ESC, AP_ESCPARENT] + list(extra_quick)
-    t = [AP_K1_T3, AP_K2_DEEP, AP_K2_INNER_ALL, AP_K3, AP_K2_COPYEDIT, AP_ESC, AP_ESCPARENT] + list(extra_thorough)
+    q = [AP_K1, AP_K2_FLAT, AP_K2_INNER, AP_K2_COPYEDIT, AP_ESC, AP_ESCPARENT, AP_PAD] + list(extra_quick)
+    t = [AP_K1_T3, AP_K2_DEEP, AP_K2_INNER_ALL, AP_K3, AP_K2_COPYEDIT, AP_ESC, AP_ESCPARENT, AP_PAD] + list(extra_thorough)
     return [
         H("H_Apply", q, t, ["apply/end", "apply/ref-fails", "apply/ref-succeeds"], AP_BOUND),
         H("H_Apply_Idx", [{"tokbytes": 2, "nshapes": 6}], [{"tokbytes": 2, "nshapes": 6}, {"tokbytes": 3, "nshapes": 6}],
@@ -185,7 +186,7 @@ R["C14"] = {"harnesses": [H("H_Apply", [C14_K1, C14_ESCPARENT], [C14_K1_ALL, C14
     "assumptions": ["outside (property): null or scalar on the path, negative indices, '-' other than last; don't-care (DESIGN appendix A): existing array shorter than the LAST token's index"],
     "outside_bound": ["paths longer than 3 tokens, indices above 9"]}
 R["C05"] = {"harnesses": apply_harnesses() + [H("H_Merge", MERGE_Q, None, ["merge/object-patch"], MERGE_BOUND),
-    H("H_Escape", [{"natoms": 1, "atommask": 65535}], None, ["escape/end"], "escape-alphabet strings (16 atoms) in untouched values and member names: strings keep their value through Apply"),
+    H("H_Escape", [{"natoms": 1, "atommask": 262143}], None, ["escape/end"], "escape-alphabet strings (16 atoms) in untouched values and member names: strings keep their value through Apply"),
     H("H_Apply", [{"k": 0, "maxtok": 1, "tokmask": 1, "shapemask": 262143, "nvals": 2}, {"k": 1, "maxtok": 2, "tokmask": 1, "shapemask": 196608, "nvals": 2, "kmask0": 63}],
       [{"k": 0, "maxtok": 1, "tokmask": 1, "shapemask": 262143, "nvals": 2}, {"k": 2, "maxtok": 1, "tokmask": 1, "shapemask": 196608, "nvals": 2, "kmask0": 63, "kmask1": 63}], ["apply/end"],
       "literal family: the empty patch on all 18 document shapes, and K operations on two documents whose numbers are the templates d.d, -0, a 23-digit integer with three symbolic digits, 1e400, -d, dEdd with members in non-sorted order: output compared ordered and literal-exact with the reference")],
@@ -211,7 +212,7 @@ R["C11"] = {"harnesses": [
 TN_ESC = {"escdocs": 1, "atommask": 1025, "kmask0": 17, "maxtok": 1, "tokmask": 33, "nvals": 2, "shapemask": 0}
 TN_PLAIN = {"escdocs": 0, "atommask": 0, "kmask0": 63, "maxtok": 1, "tokmask": 1, "nvals": 2, "shapemask": 8218}
 R["C15"] = {"harnesses": [
-    H("H_Escape", [{"natoms": 1, "atommask": 65535}], [{"natoms": 1, "atommask": 65535}, {"natoms": 2, "atommask": 3391}], ["escape/on", "escape/off", "escape/end"],
+    H("H_Escape", [{"natoms": 1, "atommask": 262143}], [{"natoms": 1, "atommask": 262143}, {"natoms": 2, "atommask": 3391}], ["escape/on", "escape/off", "escape/end"],
       "4 document shapes carrying strings (values and member names, top level, nested, inside arrays) of natoms atoms from the escape alphabet: any printable ASCII byte (symbolic: covers <, >, &), escaped quote, escaped backslash, \\u001f, raw U+2028, raw U+2029, \\u2028, raw non-BMP, lone-surrogate escape, \\n, \\u003c, \\f, \\b, \\t, \\r, \\/; 6 patches (empty, add elsewhere, copy/move of the string, add of a value carrying such a string, copy of the whole document); EscapeHTML on/off; indent of 1-2 bytes from space/tab"),
     H("H_TestNeutral", [TN_ESC, TN_PLAIN], [dict(TN_ESC, atommask=2047, kmask0=63, maxtok=2), dict(TN_PLAIN, maxtok=2, shapemask=8191)], ["testneutral/end"],
       "one operation plus one PASSING test (value = the current value at a chosen path, before or after the operation) vs the operation alone: byte-identical output; EscapeHTML on/off; documents with <, >, & in strings"),
@@ -262,11 +263,11 @@ R["C09"] = {"harnesses": [
     "outside_bound": ["histories with more than 2 intervening calls (1 in quick)", "the inductive step covers the decoder state only (encodeState and scanner pool are covered by the histories)"]}
 
 R["C17"] = {"harnesses": [
-    H("H_Codec_RoundTrip", [{"natoms": 1, "atommask": 65535, "pad": 0}, {"natoms": 1, "atommask": 1, "pad": 1}], [{"natoms": 2, "atommask": 3391, "pad": 0}, {"natoms": 1, "atommask": 65535, "pad": 1}], ["codec/object", "codec/roundtrip-end"],
+    H("H_Codec_RoundTrip", [{"natoms": 1, "atommask": 262143, "pad": 0}, {"natoms": 1, "atommask": 1, "pad": 1}], [{"natoms": 2, "atommask": 3391, "pad": 0}, {"natoms": 1, "atommask": 262143, "pad": 1}], ["codec/object", "codec/roundtrip-end"],
       "8 JSON templates (string, number, mixed array, object, nested object/array, escape-alphabet member name, array of objects, 23-digit integer) with symbolic leaves (numbers d.d / -d / dEd, strings of natoms escape-alphabet atoms, one-letter symbolic names), optionally padded with symbolic whitespace bytes at every structural position: UnmarshalValid -> Marshal / MarshalEscaped(false) read back as the same value; Compact / Indent / HTMLEscape keep value and member order; Indent = Compact re-indented; key lists of UnmarshalWithKeys / UnmarshalValidWithKeys in document order"),
-    H("H_Codec_Differential", [{"atommask": 65535}], None, ["codec/differential-end"],
+    H("H_Codec_Differential", [{"atommask": 262143}], None, ["codec/differential-end"],
       "fork vs the standard library's encoding/json, BOTH executed from source: Marshal bytes and Unmarshal results for map[string]any, []any, []string, map[string]string, string and a harness-declared struct type with a renamed field, '-', omitempty, ',string', a nested pointer struct, a map field and an embedded struct; string leaves from the escape alphabet, bool symbolic, ints from {0,7,42}; []byte values of 0, 1, 47, 48, 49, 63, 64, 65, 100 bytes (base64 path, scratch-buffer boundary) bare and inside a map"),
-    H("H_Codec_Stream", [{"atommask": 65535}], None, ["codec/stream-end"],
+    H("H_Codec_Stream", [{"atommask": 262143}], None, ["codec/stream-end"],
       "Decoder (UseNumber) over a stream of two values separated by a symbolic whitespace byte, More(), and Encoder with SetEscapeHTML on/off: same decoded values as the standard library's Decoder, one value per line on output, values read back unchanged"),
     H("H_C17_Fold", [{"ns": 2, "nt": 2}, {"ns": 1, "nt": 3}, {"ns": 2, "nt": 4}], [{"ns": 2, "nt": 2}, {"ns": 1, "nt": 3}, {"ns": 2, "nt": 4}, {"ns": 3, "nt": 3}, {"ns": 3, "nt": 5}], ["C17/fold/end"],
       "equalFoldRight, asciiEqualFold, simpleLetterEqualFold vs a reference simple-fold comparison, under their documented preconditions: s = ns unconstrained ASCII bytes, t = nt unconstrained bytes (covers K/U+212A and S/U+017F)")],
